@@ -4,10 +4,21 @@
    PROVED here (partial): for every history and every SDK operation, under every fault plan, the store only grows
    by appending rows at absent keys - no row is ever modified, removed or duplicated (so durability, once
    established, is permanent and a crash after any operation leaves a well-formed store). *)
-From Asherah Require Import Envelope.Session Envelope.Frame Envelope.FrameInst.
+From Asherah Require Import Envelope.Session Envelope.Frame Envelope.FrameInst Envelope.Create.
 
 Theorem C02_store_append_only_partial : forall h o, sdk_op o = true ->
   (exists ext, w_store (h_world (snd (hstep h o))) = w_store (h_world h) ++ ext) /\
   (NoDup (store_keys (w_store (h_world h))) -> NoDup (store_keys (w_store (h_world (snd (hstep h o)))))).
 Proof. exact sdk_store_append_only. Qed.
 Print Assumptions C02_store_append_only_partial.
+
+(* under every fault plan (error, false duplicate, error-after-write on any call): a freshly generated intermediate key is
+   handed out only if its row is in the store at that moment; otherwise its secret is released before the call returns *)
+Theorem C02_generated_key_persisted_or_discarded : forall e sk w r w',
+  create_ik_with_sk e sk w = (r, w') ->
+  forall sc, nth_error (w_secrets w') (length (w_secrets w)) = Some sc ->
+    s_closed sc = true \/
+    (exists ik o, r = inr ik /\ nth_error (w_kobjs w') ik = Some o /\ ko_secret o = length (w_secrets w) /\
+                  exists row, store_find (ik_id e) (ko_created o) (w_store w') = Some row).
+Proof. exact created_ik_persisted_or_discarded. Qed.
+Print Assumptions C02_generated_key_persisted_or_discarded.
